@@ -130,6 +130,16 @@ func c11Errors() []struct {
 		{"elements all of one non-number, non-string kind (sort)", gen.Func("sort", gen.LitJSON(`[true,false]`))},
 		{"inner call rejects what the outer call would accept", gen.Func("length", gen.Func("keys", gen.Raw("str")))},
 		{"inner call rejects an array the outer call would accept", gen.Func("length", gen.Func("values", gen.LitJSON("[1,2]")))},
+		// the outer call rejects what the inner call rightly returns (an array of the other element kind, a string where a number is due)
+		{"outer call rejects the strings a sort returns", gen.Func("sum", gen.Func("sort", gen.LitJSON(`["b","a"]`)))},
+		{"outer call rejects the numbers a sort returns", gen.Func("join", gen.Raw(","), gen.Func("sort", gen.LitJSON(`[2,1]`)))},
+		{"outer call rejects the strings keys() returns", gen.Func("avg", gen.Func("keys", gen.LitJSON(`{"a":1}`)))},
+		{"outer call rejects what map() returns", gen.Func("sum", gen.Func("map", gen.ExpRef(gen.Current()), gen.LitJSON(`["a"]`)))},
+		{"outer call rejects the string a type() returns", gen.Func("abs", gen.Func("type", gen.LitJSON("1")))},
+		{"outer call rejects the number a length() returns", gen.Func("starts_with", gen.Func("length", gen.Raw("abc")), gen.Raw("3"))},
+		{"outer call rejects the reversed strings", gen.Func("max", gen.MultiList(gen.LitJSON("1"), gen.Func("reverse", gen.Raw("ab"))))},
+		{"outer call rejects the values() of an object of strings", gen.Func("sum", gen.Func("values", gen.LitJSON(`{"a":"x"}`)))},
+		{"outer call rejects the sorted strings of a sort_by", gen.Func("sum", gen.Func("sort_by", gen.LitJSON(`["b","a"]`), gen.ExpRef(gen.Current())))},
 	}
 }
 
